@@ -151,4 +151,87 @@ def Cfg.same (a b : Cfg) : Prop :=
   a.floor = b.floor ∧ a.convDenom = b.convDenom ∧ a.nhashPerUsdMil = b.nhashPerUsdMil ∧
   a.collector = b.collector ∧ ∀ t, lookupFee a t = lookupFee b t
 
+/-! ### Nested messages (reference)
+
+"Every additional message fee incurred, including those of nested authz or contract-dispatched
+messages": a body is a `Forest`; EVERY message of it, whatever its depth, incurs the fees of its
+type (and its custom assessment); handlers may incur flat fees themselves.  Written over the
+tree, not over the order in which the router happens to see the messages. -/
+
+/-- What the handlers themselves do (grant checks before an inner message, the handler's work
+and flat fees after the routing), without the routing. -/
+def Forest.handlerSteps : Forest → List Step
+  | .nil => []
+  | .node pre _ h ch sib => pre ++ (h ++ (ch.handlerSteps ++ sib.handlerSteps))
+
+/-- The fees a forest incurs: those of ALL its messages plus the handler-level ones. -/
+def forestIncurred (cfg : Cfg) (f : Forest) : List Incurred :=
+  topIncurred cfg f.allMsgs ++ stepsIncurred cfg f.handlerSteps
+
+/-- A routed message can only come from a node of the tree: handlers' own steps route nothing
+(dispatching goes through `children`). -/
+def noRoute : List Step → Bool
+  | [] => true
+  | .route _ :: _ => false
+  | _ :: rest => noRoute rest
+
+def Forest.wf : Forest → Bool
+  | .nil => true
+  | .node pre _ h ch sib => noRoute pre && noRoute h && ch.wf && sib.wf
+
+/-- The messages a step list routes, in order. -/
+def routed : List Step → List RMsg
+  | [] => []
+  | .route m :: rest => m :: routed rest
+  | _ :: rest => routed rest
+
+/-! ### Sequences of transactions (reference) -/
+
+def Outcome.isRejected : Outcome → Bool
+  | .rejected _ => true
+  | _ => false
+
+/-- How many transactions of the sequence with payer `P` were executed past the ante handler
+(failed or succeeded — not rejected). -/
+def executedBy (P : Addr) : Chain → List (Cfg × Tx) → Nat
+  | _, [] => 0
+  | c, (cfg, tx) :: rest =>
+    (if tx.payer = P ∧ (deliverIn cfg c tx).2.outcome.isRejected = false then 1 else 0) +
+      executedBy P (deliverIn cfg c tx).1 rest
+
+/-- What the property prescribes for account `a`, denom `d` over a sequence in which no
+transaction succeeds: the sum, over the FAILED ones, of the base fee (under the configuration of
+that transaction's block) moving from its paying account to the collector. -/
+def failureDeltas (a : Addr) (d : Denom) : Chain → List (Cfg × Tx) → Int
+  | _, [] => 0
+  | c, (cfg, tx) :: rest =>
+    (if (deliverIn cfg c tx).2.outcome.isFailed
+      then feeDeltaOnFailure cfg.collector tx.from (baseFee cfg.floor tx.gas) a d else 0) +
+      failureDeltas a d (deliverIn cfg c tx).1 rest
+
+def noneSucceeds (c : Chain) (items : List (Cfg × Tx)) : Bool :=
+  (runsOf c items).all fun r => !r.outcome.isOk
+
+/-- What the mempool state may show after a sequence of arrivals: for each ADMITTED transaction —
+and for no other — its base fee moved from its paying account to the collector. -/
+def admissionDeltas (a : Addr) (d : Denom) : Chain → List (Cfg × Tx) → Int
+  | _, [] => 0
+  | c, (cfg, tx) :: rest =>
+    (if (checkIn cfg c tx).2.isNone
+      then feeDeltaOnFailure cfg.collector tx.from (baseFee cfg.floor tx.gas) a d else 0) +
+      admissionDeltas a d (checkIn cfg c tx).1 rest
+
+/-- How many arrivals with payer `P` were admitted. -/
+def admittedBy (P : Addr) : Chain → List (Cfg × Tx) → Nat
+  | _, [] => 0
+  | c, (cfg, tx) :: rest =>
+    (if tx.payer = P ∧ (checkIn cfg c tx).2.isNone then 1 else 0) + admittedBy P (checkIn cfg c tx).1 rest
+
+/-- The handlers' own work neither mints nor burns (bank sends; minting modules are outside the
+fee property). -/
+def EffectsConserve : List Step → Prop
+  | [] => True
+  | .effect f :: rest => (∀ l l', f l = .ok l' → ∀ d, l'.supply d = l.supply d) ∧ EffectsConserve rest
+  | _ :: rest => EffectsConserve rest
+
 end PvModel.Txfee
